@@ -93,9 +93,9 @@ def _maybe_promote_float_array(
     """Promote floating arrays to float64 when double precision is enabled."""
     if not enable_double_precision:
         return arr
-    if not np.issubdtype(arr.dtype, np.floating):
-        return arr
-    if arr.dtype == np.float64:
+    # Only float32 follows the precision flag (see
+    # numpy_dtype_to_ir_with_float_policy); float16 keeps its dtype.
+    if arr.dtype != np.float32:
         return arr
     return arr.astype(np.float64, copy=False)
 
